@@ -15,6 +15,11 @@ def request(kind, method="GET", path="/bkt/key", pairs=()):
         if kind == "postbadsig":
             return authfam.post_form(ak=AK, secret=SK, mutate_fields=lambda fl: [(n, authfam.flip_last_hex(v) if n == "x-amz-signature" else v) for n, v in fl])
         return authfam.post_form(ak=AK, secret=SK, mutate_fields=lambda fl: [(n, "" if n == "x-amz-signature" else v) for n, v in fl])
+    if kind in ("v4presigned", "v2header", "v2presigned", "v4presignedbad", "v2headerbad", "v2presignedbad"):
+        # the other three ways to present a signature (reference-signed; "bad" = signed with another secret)
+        import authfam
+        f = {"v4presigned": authfam.v4_presigned, "v2header": authfam.v2_header, "v2presigned": authfam.v2_presigned}[kind.replace("bad", "")]
+        return f(method=method, path=path, secret=SK + ("x" if kind.endswith("bad") else ""), ak=AK)
     hs = [("host", "localhost")]
     uri = path + ("?" + sigref.query_string(pairs) if pairs else "")
     if kind == "anon":
@@ -24,6 +29,16 @@ def request(kind, method="GET", path="/bkt/key", pairs=()):
     signed, _ = sigref.sign_v4_header(method, path, list(pairs), hs, b"", ak, secret, DATE)
     if kind == "tampered":
         uri = path + "x" + ("?" + sigref.query_string(pairs) if pairs else "")
+    if kind == "xorpair":
+        # two signature digits altered by the same bit mask: lets every folding comparison that is not an equality through
+        def alter(v):
+            k = v.index("Signature=") + 10
+            sig = list(v[k:])
+            pos = [j for j in range(len(sig)) if sig[j] in "0123456789bcde"][:2]
+            for j in pos:
+                sig[j] = chr(ord(sig[j]) ^ 1)
+            return v[:k] + "".join(sig)
+        signed = [(k, alter(v) if k == "authorization" else v) for k, v in signed]
     if kind in ("emptysig", "truncsig"):
         signed = [(k, (v[:v.index("Signature=") + 10] + (v[v.index("Signature=") + 10:][:8] if kind == "truncsig" else "")) if k == "authorization" else v)
                   for k, v in signed]
@@ -35,7 +50,8 @@ def family():
     for auth in (True, False):
         for access in (None, "allow", "deny", "deny_typed"):
             for route in (None, "match", "nomatch"):
-                for kind in ("anon", "valid", "badsecret", "unknownkey", "tampered", "emptysig", "truncsig", "post", "postbadsig", "postemptysig"):
+                for kind in ("anon", "valid", "badsecret", "unknownkey", "tampered", "emptysig", "truncsig", "xorpair", "post", "postbadsig", "postemptysig",
+                             "v4presigned", "v2header", "v2presigned", "v4presignedbad", "v2headerbad", "v2presignedbad"):
                     cfg = {}
                     if auth:
                         cfg["auth"] = {AK: SK}
@@ -60,8 +76,8 @@ def oracle(auth, access, route, kind, out):
         if kind != "anon" and sens:
             return "no provider configured but a signed request reached %s" % sens[0]["ev"]
         return None
-    signed_ok = kind in ("valid", "post")
-    if kind in ("badsecret", "unknownkey", "tampered", "emptysig", "truncsig", "postbadsig", "postemptysig"):
+    signed_ok = kind in ("valid", "post", "v4presigned", "v2header", "v2presigned")
+    if kind in ("badsecret", "unknownkey", "tampered", "emptysig", "truncsig", "xorpair", "postbadsig", "postemptysig", "v4presignedbad", "v2headerbad", "v2presignedbad"):
         if sens:
             return "request with %s reached %s" % (kind, sens[0]["ev"])
         if any(n.startswith("access.") or n == "route.check_access" for n in names):
